@@ -217,7 +217,34 @@ func init() {
 					c.Check(CanReach(a.Instr, pc) && !CanReach(pc, a.Instr), "gate-before-push", c.Pos(a.Instr), "writePending=true precedes the pushes", "gate raised after queuing")
 				}
 				// and only after the loop saw writePending == false
-				c.Dom("gate-after-wait", a.Instr, BoolCond(IsLoadOf(wp), false), "writePending == false")
+				if !DominatedByExt(a.Instr, BoolCond(IsLoadOf(wp), false)) {
+					// not a plain dominating test (e.g. `for { …; if !blockWrite || !writePending { break }; wait }` followed by
+					// `if blockWrite { writePending = true }`): decide per path, keyed by field — blockWrite never changes
+					// after construction, writePending can change whenever the association lock is released
+					unlock := func(f *types.Var, in ssa.Instruction) bool {
+						if f != wp {
+							return false
+						}
+						ci, isCall := in.(ssa.CallInstruction)
+						if !isCall {
+							return false
+						}
+						if _, isSel := in.(*ssa.Select); isSel {
+							return true
+						}
+						sc := ci.Common().StaticCallee()
+						return sc != nil && (sc.Name() == "Unlock" || sc.Name() == "Lock" || sc.Name() == "RUnlock" || sc.Name() == "RLock")
+					}
+					ok := fieldKnownAt(a.Instr, []*types.Var{wp, bw}, func(f *types.Var, in ssa.Instruction) bool {
+						if _, isSel := in.(*ssa.Select); isSel && f == wp {
+							return true
+						}
+						return unlock(f, in)
+					}, wp, false)
+					c.Check(ok, "gate-after-wait", c.Pos(a.Instr), "on every path writePending was seen false since the lock was last taken", "NOT dominated by writePending == false (holds here: "+c.describeConds(a.Instr)+")")
+				} else {
+					c.Dom("gate-after-wait", a.Instr, BoolCond(IsLoadOf(wp), false), "writePending == false")
+				}
 			}
 			// drain edge
 			pop := c.Fn("Association.popPendingDataChunksToSend")
